@@ -88,6 +88,28 @@ def check_layout(rel: str, text: str, api: dict | None) -> str | None:
     return f"base name {base!r} is neither the module {mod_segs[-1]!r} nor the single re-exported declaration {[d['python_name'] for d in info['decls']][:3]}"
 
 
+def classify_collision(rel: str, api: dict | None) -> str:
+    """Structural origin of two texts meeting at one path (used to attribute known findings narrowly).
+
+    'module-vs-reexported-declaration-homonym': the path is <package P>/<N>.sdsstub where P's __init__ re-exports a
+    declaration under the name N AND a module called N exists elsewhere in the package (its stub is sent to P as well,
+    because the re-export lookup for modules matches any import that ends in '.N')."""
+    if api is None or not rel.endswith(".sdsstub"):
+        return "unclassified"
+    parts = rel.split("/")
+    pkg_id, base = "/".join(parts[:-1]), parts[-1][: -len(".sdsstub")]
+    reexports_decl_n = False
+    for m in api.get("modules", []):
+        if m.get("id") == pkg_id and m.get("name") == "__init__":
+            for qi in m.get("qualified_imports", []):
+                if (qi.get("alias") or qi.get("qualified_name", "").split(".")[-1]).lstrip("_") == base:
+                    reexports_decl_n = True
+    module_named_n = any(m.get("name", "").lstrip("_") == base and m.get("id") != f"{pkg_id}/{m.get('name')}" for m in api.get("modules", []))
+    if reexports_decl_n and module_named_n:
+        return "module-vs-reexported-declaration-homonym"
+    return "unclassified"
+
+
 def wrap_in_container(pkg: dict, container: str) -> dict:
     p = dict(pkg)
     p["files"] = {f"{container}/{k}": v for k, v in pkg["files"].items()}
@@ -108,7 +130,7 @@ def make_cases(seed: int, tier: str, n_cases: int | None = None) -> list[dict]:
             if idx % 3 == 0:
                 r0 = rng(cs, "feat")
                 feats = sorted(set(r0.sample(workload.FEATURES, r0.randint(2, 6)))
-                               | set(r0.sample(["FOREIGN_TYPES", "ALIAS_REEXPORT", "TIE_REEXPORT", "MODULE_REEXPORT", "UNDERSCORE_TWIN", "STAR_REEXPORT", "SNAKE_NAMES", "DEEP_PACKAGE"], 4)))
+                               | set(r0.sample(["FOREIGN_TYPES", "ALIAS_REEXPORT", "TIE_REEXPORT", "MODULE_REEXPORT", "UNDERSCORE_TWIN", "STAR_REEXPORT", "SNAKE_NAMES", "DEEP_PACKAGE", "NAME_ECHO"], 4)))
                 pkg = workload.generate_package(H(cs, "pkg"), feats)
             if idx % 5 == 1:
                 pkg = wrap_in_container(pkg, r.choice(["rel-1.2", "lib.src", "v2.0.1", "plain_dir"]))
@@ -173,10 +195,18 @@ def judge_step(case: dict, hi: int, res: dict) -> tuple[list[dict], dict]:
             opened.setdefault(p, []).append(mode)
         elif e.get("op") == "close" and ("w" in str(e.get("mode", "")) or "x" in str(e.get("mode", ""))):
             closes.setdefault(p, []).append(e.get("sha"))
+    api_early = None
+    for k, ent in res.get("out_tree", {}).items():
+        if k.endswith("__api.json") and "data" in ent:
+            try:
+                api_early = json.loads(ent["data"].decode("utf-8"))
+            except ValueError:
+                api_early = None
     for p, shas in closes.items():
         if len(shas) > 1:
             if len(set(shas)) > 1:
-                v("two-texts-one-path", "3", path=p, writes=len(shas), fingerprint={"gkey": "two-texts"})
+                v("two-texts-one-path", "3", path=p, writes=len(shas),
+                  fingerprint={"gkey": "two-texts", "collision": classify_collision(p[len(prefix):] if p.startswith(prefix) else p, api_early)})
             else:
                 stats["rewrites_same_text"] += 1
 
